@@ -5,7 +5,11 @@ P0 in days (the unit P arrives in), trend terms in RV unit / day^j, data in the 
 from . import kernel as KN
 
 PROPERTY = "C07"
-CONTRACTS = list(KN.init_contracts_)
+from . import c08 as C08   # noqa: E402
+CONTRACTS = list(KN.init_contracts_) + [C08.vpd_data]
+# prior-sample columns in any equivalent units: the readers convert every requested column by the exact factor, on every dispatch branch
+from . import c12 as _C12   # noqa: E402
+CONTRACTS += _C12.read_batch_slice + _C12.read_batch_idx + _C12.read_batch
 CALLEES = dict(KN.CALLEES)
 LIB = dict(KN.LIB)
 HOOKS = KN.HOOKS
